@@ -3,6 +3,7 @@ import LentilVerif.Gen.Util
 import LentilVerif.Gen.Helper
 import LentilVerif.Gen.Helper20
 import LentilVerif.Gen.Hex
+import LentilVerif.Gen.Mesh
 /-! Executable model of lentil's array-geometry helpers (`util.pad/subarray/boundary/rebin/centroid`,
 `helper.mesh/boundary_slice/slice_offset`, `shape.circle/rectangle/hexagon`, `segmented.hex_ring/hex_segments`).
 Index arithmetic comes from the generated kernel (`Gen.padIdx2`, `Gen.padIdx3`, `Gen.subarrayIdx`, `Gen.boundarySlice`,
@@ -124,8 +125,8 @@ def centroidNum (a : Arr Int) : Int × Int × Int :=
 
 /-! ## `helper.mesh` and the drawn shapes (`shape.py`) -/
 
-/-- coordinate of index `i` on an axis of length `n` shifted by `s`: `arange(n) - floor(n/2) - s` -/
-def meshCoord [Sub K] [IntCast K] (n i : Int) (s : K) : K := ((i : K) - ((n / 2 : Int) : K)) - s
+/-- coordinate of index `i` on an axis of length `n` shifted by `s`: `arange(n) - floor(n/2) - s` — the REGENERATED `Gen.meshCoord` -/
+def meshCoord [Add K] [Sub K] [Mul K] [Div K] [Neg K] [NatCast K] [IntCast K] (n i : Int) (s : K) : K := Gen.meshCoord n i s
 
 def clip01 [Zero K] [One K] [LT K] [DecidableRel (α := K) (· < ·)] (x : K) : K :=
   if x < 0 then 0 else if 1 < x then 1 else x
@@ -137,7 +138,7 @@ def absK [Zero K] [Neg K] [LT K] [DecidableRel (α := K) (· < ·)] (x : K) : K 
 def minK [LT K] [DecidableRel (α := K) (· < ·)] (x y : K) : K := if y < x then y else x
 
 section Shapes
-variable [Add K] [Sub K] [Mul K] [Neg K] [Zero K] [One K] [IntCast K] [LT K] [DecidableRel (α := K) (· < ·)]
+variable [Add K] [Sub K] [Mul K] [Div K] [Neg K] [Zero K] [One K] [IntCast K] [NatCast K] [LT K] [DecidableRel (α := K) (· < ·)]
 
 /-- `shape.circle`: `clip(radius + 0.5 - sqrt((rr - s0)² + (cc - s1)²), 0, 1)`, binarised without antialiasing.
 `half` is the constant 0.5 and `sqrt` the square root of the value type. -/
@@ -151,12 +152,19 @@ def circleAt (sqrt : K → K) (half : K) (n0 n1 : Int) (radius s0 s1 : K) (aa : 
 def rectangleAt (half : K) (n0 n1 : Int) (width height s0 s1 ca sa : K) (aa : Bool) (i j : Int) : K :=
   let rr := meshCoord n0 i s0
   let cc := meshCoord n1 j s1
-  let r := rr * ca + cc * sa
-  let c := rr * (-sa) + cc * ca
+  let r := (Gen.meshRot rr cc ca sa).1
+  let c := (Gen.meshRot rr cc ca sa).2
   let wc := clip01 ((half + width * half) - absK c)
   let hc := clip01 ((half + height * half) - absK r)
   let m := minK (minK 1 wc) hc
   if aa then m else binarise m
+
+/-- `shape.spider`: one minus a rectangle of length `len = √2·max(shape)/2` and the given width, pushed out from the (shifted) centre by
+`len/2` along the direction `angle` (`ca`, `sa` = cos, sin of the angle; `sqrt2` = √2) -/
+def spiderAt (half sqrt2 : K) (n0 n1 : Int) (width s0 s1 ca sa : K) (aa : Bool) (i j : Int) : K :=
+  let len := sqrt2 * ((max n0 n1 : Int) : K) / ((2 : Int) : K)
+  let dist := len / ((2 : Int) : K)
+  1 - rectangleAt half n0 n1 len width (s0 + -dist * sa) (s1 + dist * ca) ca sa aa i j
 
 /-- one of the six half-planes of `shape.hexagon` (normal `(sn, cn)`) -/
 def hexSide (half inner : K) (aa : Bool) (r c sn cn : K) : K :=
@@ -198,6 +206,11 @@ def hexRing (k : Nat) : List HexCell := (walkSides k 6).1
 def hexToRC [Add K] [Mul K] [Neg K] [IntCast K] (sqrt3 sqrt3h threeHalf : K) (h : HexCell) (radius : K) (rotate : Bool) : K × K :=
   if rotate then (-(radius * (threeHalf * (h.2.1 : K))), radius * (sqrt3 * (h.1 : K) + sqrt3h * (h.2.1 : K)))
   else (-(radius * (sqrt3h * (h.1 : K) + sqrt3 * (h.2.1 : K))), radius * (threeHalf * (h.1 : K)))
+
+/-- array size of `hex_segments`: `np.ceil(<Gen.hexSizeArg>).astype(int)` — the argument of the ceiling is REGENERATED from the source -/
+def hexSegmentsSize [Add K] [Sub K] [Mul K] [Div K] [Neg K] [NatCast K] [IntCast K] (ceil : K → Int) (sqrtN : Nat → K)
+    (rings pad : Nat) (seg_radius seg_gap : K) : Int :=
+  ceil (Gen.hexSizeArg sqrtN rings pad seg_radius seg_gap)
 
 /-- cells in the numbering of `hex_segments`: 0 = centre, then ring 1, ring 2, … -/
 def segCells : Nat → List HexCell
